@@ -22,7 +22,13 @@ def model_literals(path):
     raw = open(path).read()
     txt = strip_comments(raw)
     out = []
+    seen = set()
+    for m in re.finditer(r'Definition\s+(\w+)\s*(?::\s*bytes\s*)?:=\s*Eval compute in\s+lit\s+"((?:[^"]|"")*)"%string\s*\.', txt):
+        line = txt.count('\n', 0, m.start()) + 1
+        out.append((line, m.group(1), 'str', '"%s"' % m.group(2), m.group(2).replace('""', '"')))
+        seen.add(m.group(1))
     for m in re.finditer(r'Definition\s+(\w+)\s*(?::\s*[\w ()*]+?)?\s*:=\s*(.*?)\.(?=\s|$)', txt, flags=re.S):
+        if m.group(1) in seen: continue
         name, body = m.group(1), ' '.join(m.group(2).split())
         line = txt.count('\n', 0, m.start()) + 1
         ml = re.fullmatch(r'Eval compute in lit "((?:[^"]|"")*)"%string', body)
@@ -34,6 +40,7 @@ def model_literals(path):
             continue
         if re.fullmatch(r'(Eval compute in\s*)?\(?\[.*\]\)?(%N)?', body) and 'fun ' not in body and 'match' not in body:
             out.append((line, name, 'list', body if len(body) < 70 else body[:67] + '...', None))
+    out.sort()
     return out
 
 def theorems(path):
